@@ -24,7 +24,8 @@ RUST = {"y": "u8", "u": "u32", "x": "i64", "b": "bool", "s": "String", "A": "Vec
 SIG = {"y": "y", "u": "u", "x": "x", "b": "b", "s": "s", "A": "au", "R": "(us)", "N": "(us)", "D": "a{su}", "v": "v", "o": "o"}
 EMITS = {"t": "true", "i": "invalidates", "c": "const", "f": "false"}
 WORDS = ["Add", "Get", "Put", "Run", "Stop", "Go", "Mix", "Zap", "Hold", "Send", "Peek", "Flip", "Sum", "Cut", "Join", "Ask"]
-DOCS = [" plain text", " a -- b", " x <b>y</b> & \"z\" 'q'", " ends --> here", "", "  ", " two\nlines", " dash-", " -", " <!-- nested",
+# no "-->": it would end the comment early and turn the rest of the doc text into markup (outside the modelled fragment)
+DOCS = [" plain text", " a -- b", " x <b>y</b> & \"z\" 'q'", " ends -- here", "", "  ", " two\nlines", " dash-", " -", " <!-- nested",
         " café ☃", " a - - b", "\tTab", " ]]> &amp; &#60;"]
 
 
@@ -208,12 +209,14 @@ def emit_iface(d, k):
     w("    use zbus::zvariant::{OwnedObjectPath, OwnedValue};")
     w("")
     w("    pub struct Srv {")
+    w("        tag: String,")
     for p in d["props"]:
         w("        %s: Mutex<%s>," % (snake(p["name"]), RUST[p["ty"]]))
     w("    }")
     w("    impl Srv {")
-    w("        pub fn new() -> Self {")
+    w("        pub fn new(tag: &str) -> Self {")
     w("            Srv {")
+    w("                tag: tag.to_string(),")
     for p in d["props"]:
         w("                %s: Mutex::new(<%s as Tv>::derive(rt::digest(%s)))," % (snake(p["name"]), RUST[p["ty"]], rust_str(p["name"])))
     w("            }")
@@ -231,7 +234,7 @@ def emit_iface(d, k):
         else:
             rets = (" -> %s" % rt_) if rt_ else ""
         w("        %sfn %s(&%sself%s)%s {" % ("async " if m["async"] else "", snake(m["name"]), "mut " if m["mut"] else "", args, rets))
-        w("            let h = rt::entry(%s, &[%s]);" % (rust_str(m["name"]), ", ".join("a%d.to_val()" % i for i in range(len(m["ins"])))))
+        w("            let h = rt::entry(&self.tag, %s, &[%s]);" % (rust_str(m["name"]), ", ".join("a%d.to_val()" % i for i in range(len(m["ins"])))))
         if m["fall"]:
             w("            if let Some(e) = rt::method_failure(h) {")
             w("                return Err(e);")
@@ -251,7 +254,7 @@ def emit_iface(d, k):
             w(docs(p["doc"], "        ").rstrip("\n")) if p["doc"] else None
             w("        #[zbus(property(emits_changed_signal = \"%s\"))]" % EMITS[p["emits"]]) if p["emits"] != "t" or k % 2 else w("        #[zbus(property)]")
             w("        %sfn %s(&self) -> %s {" % ("async " if p["gasync"] else "", f, ("zbus::fdo::Result<%s>" % ty) if p["gfall"] else ty))
-            w("            rt::log(format!(\"get %s\"));" % nm)
+            w("            rt::log(format!(\"{}#get_%s\", self.tag));" % nm)
             w("            let v = self.%s.lock().unwrap().clone();" % f)
             if p["gfall"]:
                 w("            if rt::getter_fails(&v.to_val()) {")
@@ -267,7 +270,7 @@ def emit_iface(d, k):
             w("        #[zbus(property)]")
             w("        %sfn set_%s(&%sself, v: %s)%s {" % ("async " if p["sasync"] else "", f, "mut " if p["smut"] else "", ty,
                                                       " -> zbus::fdo::Result<()>" if p["sfall"] else ""))
-            w("            rt::log(format!(\"set %s={}\", v.to_val().tok()));" % nm)
+            w("            rt::log(format!(\"{}#set_%s={}\", self.tag, v.to_val().tok()));" % nm)
             if p["sfall"]:
                 w("            if rt::setter_fails(&v.to_val()) {")
                 w("                return Err(zbus::fdo::Error::Failed(\"s%s\".into()));" % nm)
@@ -300,7 +303,7 @@ def emit_iface(d, k):
     w("")
     # ---- glue
     w("    pub async fn register(os: &zbus::ObjectServer, path: &str) -> zbus::Result<bool> {")
-    w("        os.at(path, Srv::new()).await")
+    w("        os.at(path, Srv::new(path)).await")
     w("    }")
     w("")
 
@@ -428,27 +431,78 @@ def emit_iface(d, k):
     return "\n".join(x for x in L if x is not None)
 
 
-NPARTS = 4
+# ---------------------------------------------------------------- the fixed corpus of descriptions
+def _m(name, ins, out, fl="", doc=()):
+    o = ("-",) if out == "-" else ("1", out[1]) if out[0] == "1" else ("t", list(out[1:]))
+    return {"name": name, "ins": list(ins.replace("-", "")), "out": o, "mut": "m" in fl, "fall": "f" in fl, "async": "a" in fl, "doc": list(doc)}
 
 
-def part_of(k, n, nparts=NPARTS):
-    """interface k of n goes to part k % nparts (round robin keeps the parts balanced)"""
-    return k % nparts
+def _p(name, ty, acc, em, fl="", doc=()):
+    return {"name": name, "ty": ty, "acc": acc, "emits": em, "gfall": "g" in fl, "sfall": "s" in fl, "smut": "m" in fl,
+            "gasync": "a" in fl, "sasync": "b" in fl, "doc": list(doc)}
 
 
-def emit_part(descs, part, nparts=NPARTS):
+def _s(name, args, doc=()):
+    return {"name": name, "args": list(args.replace("-", "")), "doc": list(doc)}
+
+
+def corpus_descs():
+    """hand-picked: every type in every position, every output shape, every flag, every property mode / access /
+    fallibility, every signal arity, doc texts incl. the known-deviation ones"""
+    return [
+        {"name": "KTypes", "methods": [_m("MBytes", "yux", "tyux"), _m("MStrs", "bso", "tbso"), _m("MConts", "AD", "tAD"),
+                                       _m("MVar", "v", "1v"), _m("MVarPath", "vo", "tov", "a")], "props": [], "signals": []},
+        {"name": "KStructs", "methods": [_m("MPairIn", "R", "1s"), _m("MTwoIn", "us", "1u"), _m("MNamedIn", "N", "1u"),
+                                         _m("MNamedOut", "u", "1N"), _m("MTupleOut", "u", "tus"), _m("MPairInTuple", "u", "tR"),
+                                         _m("MOneTuple", "u", "tu"), _m("MUnitTuple", "u", "t"), _m("MNoargs", "-", "-"),
+                                         _m("MMixed", "uRs", "tRu"), _m("MNamedBoth", "N", "1N", "f")], "props": [], "signals": []},
+        {"name": "KFlags", "methods": [_m("MPlain", "u", "1u"), _m("MMut", "u", "1u", "m"), _m("MFall", "u", "1u", "f"),
+                                       _m("MAsync", "u", "1u", "a"), _m("MAll", "u", "1u", "mfa"), _m("MFallUnit", "s", "-", "f"),
+                                       _m("MFallTuple", "s", "tus", "fa"), _m("MMutNoargs", "-", "1s", "m")],
+         "props": [_p("PCount", "u", "rw", "t", "m")], "signals": []},
+        {"name": "KModes", "methods": [_m("MPing", "-", "1u")],
+         "props": [_p("PTrue", "u", "rw", "t", "m"), _p("PInval", "u", "rw", "i", "m"), _p("PConst", "u", "rw", "c", "m"),
+                   _p("PFalse", "u", "rw", "f", "m"), _p("PRo", "s", "r", "t"), _p("PWo", "s", "w", "f", "m"),
+                   _p("PRoInval", "x", "r", "i"), _p("PSelfSet", "b", "rw", "t", "")], "signals": []},
+        {"name": "KFallible", "methods": [],
+         "props": [_p("PGf", "u", "rw", "t", "gm"), _p("PSf", "u", "rw", "t", "sm"), _p("PGsf", "u", "rw", "i", "gsm"),
+                   _p("PGfRo", "s", "r", "t", "g"), _p("PGfFalse", "y", "rw", "f", "gm"), _p("PAsync", "u", "rw", "t", "mab"),
+                   _p("PGfAsync", "s", "rw", "t", "gsmab")], "signals": []},
+        {"name": "KPropTypes", "methods": [],
+         "props": [_p("PVar", "v", "rw", "t", "m"), _p("PVec", "A", "rw", "t", "m"), _p("PMap", "D", "rw", "i", "m"),
+                   _p("PNamed", "N", "rw", "t", "m"), _p("PPath", "o", "rw", "f", "m"), _p("PBool", "b", "rw", "t", "m"),
+                   _p("PI64", "x", "rw", "t", "m"), _p("PU8", "y", "rw", "c", "m"), _p("PVarRo", "v", "r", "f")], "signals": []},
+        {"name": "KSignals", "methods": [_m("MEcho", "s", "1s")], "props": [_p("PVal", "u", "rw", "t", "m")],
+         "signals": [_s("SNone", "-"), _s("SOne", "u"), _s("SPair", "R"), _s("STwo", "us"), _s("SNamed", "N"), _s("SThree", "sAD"),
+                     _s("SVar", "v"), _s("SPathBool", "ob")]},
+        {"name": "KDocs",
+         "methods": [_m("MPlain", "u", "1u", "", [" plain text"]), _m("MDashes", "u", "-", "", [" a -- b"]),
+                     _m("MBlanks", "-", "-", "", ["", "  ", " lead blank skipped", "", " x", "  ", ""]),
+                     _m("MLines", "s", "1s", "f", [" two\nlines", " third"]), _m("MXml", "-", "1s", "", [" x <b>y</b> & \"z\" 'q'"]),
+                     _m("MDashEnd", "-", "-", "a", [" dash-", " -"]), _m("MOnlyBlank", "-", "-", "", ["", "   "]),
+                     _m("MNested", "-", "-", "", [" <!-- nested"])],
+         "props": [_p("PZed", "u", "rw", "t", "m", [" zed doc"]), _p("PAlpha", "u", "r", "i", "", [" alpha -- doc"]),
+                   _p("Pa", "s", "w", "f", "m", [" setter only doc"]), _p("PB", "b", "rw", "f", "", [" café ☃"])],
+         "signals": [_s("SDoc", "u", [" signal doc", " ]]> &amp; &#60;"]), _s("SDash", "-", [" a - - b"])]},
+    ]
+
+
+NCORPUS_PARTS = 2
+NRAND_PARTS = 4
+
+def emit_part(descs, idxs):
     L = ["// GENERATED by props/ifacegen.py from interface descriptions — do not edit.", "#![allow(clippy::all)]", ""]
-    for k, d in enumerate(descs):
-        if part_of(k, len(descs), nparts) == part:
-            L.append(emit_iface(d, k))
-            L.append("")
+    for k in idxs:
+        L.append(emit_iface(descs[k], k))
+        L.append("")
     return "\n".join(L) + "\n"
 
 
-def emit_tables(descs, crate_prefix, nparts=NPARTS):
+def emit_tables(descs, crate_of):
+    """crate_of[k] = the crate that holds module g<k>"""
     toks = [desc_token(d) for d in descs]
     L = ["// GENERATED by props/ifacegen.py from interface descriptions — do not edit.",
-         "// The description tokens below are the ones the Coq driver (C26/Run.v) parses.",
+         "// The description tokens below are the ones the Coq driver (C26/Runner.v) parses.",
          "#![allow(clippy::all)]",
          "use hiface_rt as rt;",
          "pub const DESCS: &[&str] = &["]
@@ -462,7 +516,7 @@ def emit_tables(descs, crate_prefix, nparts=NPARTS):
         L.append(sig + " {")
         L.append("    match idx {")
         for k in range(n):
-            L.append("        %d => %s_p%d::g%d::%s%s," % (k, crate_prefix, part_of(k, n, nparts), k, call, aw))
+            L.append("        %d => %s::g%d::%s%s," % (k, crate_of[k], k, call, aw))
         L.append("        _ => panic!(\"no such interface\"),")
         L.append("    }")
         L.append("}")
@@ -477,6 +531,7 @@ def emit_tables(descs, crate_prefix, nparts=NPARTS):
 
 
 HARNESS_SRC = os.path.join(core.HARNESS, "hiface")
+FU = 'futures-util = { version = "0.3", default-features = false, features = ["async-await", "async-await-macro"] }'
 
 
 def write_if_changed(path, text):
@@ -489,40 +544,824 @@ def write_if_changed(path, text):
     return True
 
 
-def write_tree(outdir, descs, bin_name="hiface", nparts=NPARTS, repo=None, hcommon=None):
-    """The whole harness crate for a batch of descriptions: <outdir>/{Cargo.toml, src/main.rs, src/gen_ifaces.rs, rt/, parts/p<i>/}.
-    main.rs and rt/ are the hand-written files of harness/hiface; everything else is generated."""
+def zbus_dep(repo):
+    return 'zbus = { path = "%s/zbus", features = ["p2p", "bus-impl"] }' % repo
+
+
+def part_toml(name, rt_path, repo):
+    return ('[package]\nname = "%s"\nversion = "0.0.0"\nedition = "2021"\n\n[dependencies]\nhiface_rt = { path = "%s" }\n'
+            '%s\nasync-io = "2"\n%s\n' % (name, rt_path, zbus_dep(repo), FU))
+
+
+def bin_toml(name, hcommon, rt_path, parts, repo):
+    deps = "".join('%s = { path = "%s" }\n' % (n, p) for n, p in parts)
+    return ('[package]\nname = "%s"\nversion = "0.0.0"\nedition = "2021"\n\n[dependencies]\nhcommon = { path = "%s" }\n'
+            'hiface_rt = { path = "%s" }\n%s%s\nzbus_xml = { path = "%s/zbus_xml" }\nzvariant = { path = "%s/zvariant" }\n'
+            'async-io = "2"\n%s\n\n[workspace]\n' % (name, hcommon, rt_path, deps, zbus_dep(repo), repo, repo, FU))
+
+
+def write_corpus_tree(repo=None):
+    """harness/hiface: the committed crate for the corpus batch alone (Other + corpus descriptions in parts c0, c1).
+    Regenerated on every run; the files only change when the emitter or the corpus does."""
     repo = repo or core.REPO
-    in_tree = os.path.abspath(outdir) == os.path.abspath(HARNESS_SRC)
-    hcommon = hcommon or ("../hcommon" if in_tree else os.path.join(core.HARNESS, "hcommon"))
-    hcommon_rt = ("../" + hcommon) if in_tree else hcommon
-    zb = 'zbus = { path = "%s/zbus", features = ["p2p", "bus-impl"] }' % repo
-    fu = 'futures-util = { version = "0.3", default-features = false, features = ["async-await", "async-await-macro"] }'
-    parts_deps = "".join('%s_p%d = { path = "parts/p%d" }\n' % (bin_name, i, i) for i in range(nparts))
-    write_if_changed(os.path.join(outdir, "Cargo.toml"),
-                     '[package]\nname = "%s"\nversion = "0.0.0"\nedition = "2021"\n\n[dependencies]\nhcommon = { path = "%s" }\n'
-                     'hiface_rt = { path = "rt" }\n%s%s\nzbus_xml = { path = "%s/zbus_xml" }\nzvariant = { path = "%s/zvariant" }\n'
-                     'async-io = "2"\n%s\n\n[workspace]\n' % (bin_name, hcommon, parts_deps, zb, repo, repo, fu))
-    write_if_changed(os.path.join(outdir, "rt", "Cargo.toml"),
-                     '[package]\nname = "hiface_rt"\nversion = "0.0.0"\nedition = "2021"\n\n[dependencies]\nhcommon = { path = "%s" }\n'
-                     '%s\nzvariant = { path = "%s/zvariant" }\nserde = { version = "1", features = ["derive"] }\n' % (hcommon_rt, zb, repo))
-    for i in range(nparts):
-        write_if_changed(os.path.join(outdir, "parts", "p%d" % i, "Cargo.toml"),
-                         '[package]\nname = "%s_p%d"\nversion = "0.0.0"\nedition = "2021"\n\n[dependencies]\nhiface_rt = { path = "../../rt" }\n'
-                         '%s\nasync-io = "2"\n%s\n' % (bin_name, i, zb, fu))
-        write_if_changed(os.path.join(outdir, "parts", "p%d" % i, "src", "lib.rs"), emit_part(descs, i, nparts))
-    write_if_changed(os.path.join(outdir, "src", "gen_ifaces.rs"), emit_tables(descs, bin_name, nparts))
-    if os.path.abspath(outdir) != os.path.abspath(HARNESS_SRC):
-        write_if_changed(os.path.join(outdir, "src", "main.rs"), open(os.path.join(HARNESS_SRC, "src", "main.rs")).read())
-        write_if_changed(os.path.join(outdir, "rt", "src", "lib.rs"), open(os.path.join(HARNESS_SRC, "rt", "src", "lib.rs")).read())
-        cfg = os.path.join(core.HARNESS, ".cargo", "config.toml")
-        write_if_changed(os.path.join(outdir, ".cargo", "config.toml"), open(cfg).read())
+    descs = [OTHER] + corpus_descs()
+    n = len(descs)
+    crate_of = {k: "hiface_c%d" % (k % NCORPUS_PARTS) for k in range(n)}
+    for j in range(NCORPUS_PARTS):
+        write_if_changed(os.path.join(HARNESS_SRC, "parts", "c%d" % j, "Cargo.toml"), part_toml("hiface_c%d" % j, "../../rt", repo))
+        write_if_changed(os.path.join(HARNESS_SRC, "parts", "c%d" % j, "src", "lib.rs"),
+                         emit_part(descs, [k for k in range(n) if k % NCORPUS_PARTS == j]))
+    write_if_changed(os.path.join(HARNESS_SRC, "rt", "Cargo.toml"),
+                     '[package]\nname = "hiface_rt"\nversion = "0.0.0"\nedition = "2021"\n\n[dependencies]\nhcommon = { path = "../../hcommon" }\n'
+                     '%s\nzvariant = { path = "%s/zvariant" }\nserde = { version = "1", features = ["derive"] }\n' % (zbus_dep(repo), repo))
+    write_if_changed(os.path.join(HARNESS_SRC, "Cargo.toml"),
+                     bin_toml("hiface", "../hcommon", "rt", [("hiface_c%d" % j, "parts/c%d" % j) for j in range(NCORPUS_PARTS)], repo))
+    write_if_changed(os.path.join(HARNESS_SRC, "src", "gen_ifaces.rs"), emit_tables(descs, crate_of))
+    return descs
+
+
+def batch_key(descs):
+    h = hashlib.sha256()
+    for f in (os.path.join(HARNESS_SRC, "src", "main.rs"), os.path.join(HARNESS_SRC, "rt", "src", "lib.rs"), os.path.abspath(__file__)):
+        h.update(open(f, "rb").read())
+    for d in descs:
+        h.update(desc_token(d).encode())
+    return h.hexdigest()[:10]
+
+
+def write_batch_tree(rand_descs, repo=None):
+    """_build/hiface/<key>: the crate for Other + corpus + the batch's random descriptions.  The corpus parts and rt are the
+    shared crates under harness/hiface (compiled once); the random descriptions go to parts r0..r3 of this tree."""
+    repo = repo or core.REPO
+    corpus = write_corpus_tree(repo)
+    descs = corpus + rand_descs
+    key = batch_key(descs)
+    name = "hiface_" + key
+    outdir = os.path.join(core.BUILD, "hiface", key)
+    n0, n = len(corpus), len(descs)
+    crate_of = {k: "hiface_c%d" % (k % NCORPUS_PARTS) for k in range(n0)}
+    rparts = min(NRAND_PARTS, max(1, len(rand_descs)))
+    for k in range(n0, n):
+        crate_of[k] = "%s_r%d" % (name, (k - n0) % rparts)
+    rt_abs = os.path.join(HARNESS_SRC, "rt")
+    parts = [("hiface_c%d" % j, os.path.join(HARNESS_SRC, "parts", "c%d" % j)) for j in range(NCORPUS_PARTS)]
+    if rand_descs:
+        for j in range(rparts):
+            write_if_changed(os.path.join(outdir, "parts", "r%d" % j, "Cargo.toml"), part_toml("%s_r%d" % (name, j), rt_abs, repo))
+            write_if_changed(os.path.join(outdir, "parts", "r%d" % j, "src", "lib.rs"),
+                             emit_part(descs, [k for k in range(n0, n) if (k - n0) % rparts == j]))
+            parts.append(("%s_r%d" % (name, j), "parts/r%d" % j))
+    write_if_changed(os.path.join(outdir, "Cargo.toml"), bin_toml(name, os.path.join(core.HARNESS, "hcommon"), rt_abs, parts, repo))
+    write_if_changed(os.path.join(outdir, "src", "gen_ifaces.rs"), emit_tables(descs, crate_of))
+    write_if_changed(os.path.join(outdir, "src", "main.rs"), open(os.path.join(HARNESS_SRC, "src", "main.rs")).read())
+    write_if_changed(os.path.join(outdir, ".cargo", "config.toml"), open(os.path.join(core.HARNESS, ".cargo", "config.toml")).read())
+    lock = os.path.join(outdir, "Cargo.lock")
+    if not os.path.exists(lock):
+        shutil.copy(os.path.join(repo, "Cargo.lock"), lock)
+    return outdir, name, descs
+
+
+def build_batch(rand_descs):
+    """returns (binary path or None, log, descs)"""
+    outdir, name, descs = write_batch_tree(rand_descs)
+    env = {"RUSTFLAGS": "--cfg %s" % core.GUARD, "CARGO_TARGET_DIR": core.TARGET}
+    rc, out = core.sh(["cargo", "build", "--offline"], cwd=outdir, timeout=3000, env=env)
+    if rc != 0 and "Cargo.lock" in out:
+        shutil.copy(os.path.join(core.REPO, "Cargo.lock"), os.path.join(outdir, "Cargo.lock"))
+        rc, out = core.sh(["cargo", "build", "--offline"], cwd=outdir, timeout=3000, env=env)
+    prune_batches(keep=os.path.basename(outdir))
+    if rc != 0:
+        return None, out[-6000:], descs
+    return os.path.join(core.TARGET, "debug", name), "", descs
+
+
+def prune_batches(keep, limit=6):
+    """old batch trees and their artifacts in the shared target directory"""
+    base = os.path.join(core.BUILD, "hiface")
+    try:
+        ds = sorted((d for d in os.listdir(base) if d != keep), key=lambda d: os.path.getmtime(os.path.join(base, d)))
+    except OSError:
+        return
+    for d in ds[:max(0, len(ds) - (limit - 1))]:
+        shutil.rmtree(os.path.join(base, d), ignore_errors=True)
+        dbg = os.path.join(core.TARGET, "debug")
+        for sub in ("", "deps", "incremental", ".fingerprint"):
+            p = os.path.join(dbg, sub)
+            if os.path.isdir(p):
+                for f in os.listdir(p):
+                    if ("hiface_" + d) in f:
+                        q = os.path.join(p, f)
+                        shutil.rmtree(q, ignore_errors=True) if os.path.isdir(q) else os.remove(q)
+
+
+def batch_descs(tier, seed, batch=0):
+    """the random descriptions of batch number `batch` for this tier and seed"""
+    rng = random.Random("ifaces-%s-%s-%d" % (tier, seed, batch))
+    n = 12
+    return [rand_desc(rng, "G%d" % i) for i in range(n)]
+
+
+# ---------------------------------------------------------------- values and cases
+PR = "org.freedesktop.DBus.Properties"
+STRS = ["", "x", "hello world", "é☃", "a,b:c;d|e", "--", "0"]
+PATHS_V = ["/", "/a", "/zv/a", "/a_b/C9"]
+U32S = [0, 1, 2, 7, 255, 256, 65535, 4294967295, 4294967294, 123456789]
+
+
+def tok_str(x):
+    return x.encode("utf8").hex()
+
+
+def gen_val(rng, t, depth=0):
+    """a token of a value of menu type t"""
+    if t == "y":
+        return "y%d" % rng.choice([0, 1, 127, 128, 255, rng.randint(0, 255)])
+    if t == "u":
+        return "u%d" % rng.choice(U32S + [rng.randint(0, 4294967295)])
+    if t == "x":
+        return "x%d" % rng.choice([0, 1, -1, 9223372036854775807, -9223372036854775808, rng.randint(-10**12, 10**12)])
+    if t == "b":
+        return "b%d" % rng.randint(0, 1)
+    if t == "s":
+        return "s" + tok_str(rng.choice(STRS + ["w%d" % rng.randint(0, 999)]))
+    if t == "o":
+        return "o" + tok_str(rng.choice(PATHS_V + ["/p%d" % rng.randint(0, 99)]))
+    if t == "A":
+        return "A" + ".".join(str(rng.choice(U32S)) for _ in range(rng.choice([0, 0, 1, 2, 5])))
+    if t in "RN":
+        return "R%d.%s" % (rng.choice(U32S), tok_str(rng.choice(STRS)))
+    if t == "D":
+        keys = sorted(set(rng.choice(["k", "a", "", "zz", "é", "k%d" % rng.randint(0, 9)]) for _ in range(rng.choice([0, 0, 1, 2, 3]))),
+                      key=lambda z: z.encode("utf8"))
+        return "D" + "+".join("%s.%d" % (tok_str(k), rng.choice(U32S)) for k in keys)
+    if t == "v":
+        inner = rng.choice("yuxbsoARDv" if depth < 2 else "yuxbsoARD")
+        return "v" + gen_val(rng, inner, depth + 1)
+    raise ValueError(t)
+
+
+def other_type(rng, t):
+    """a menu type with a different D-Bus signature"""
+    while True:
+        u = rng.choice(TYPES)
+        if SIG[u] != SIG[t]:
+            return u
+
+
+def gen_args(rng, ts):
+    return ",".join(gen_val(rng, t) for t in ts)
+
+
+def bad_args(rng, ts):
+    """argument lists that do NOT have the declared types (several kinds), possibly the accepted deviations"""
+    k = rng.random()
+    if not ts:
+        return gen_args(rng, [rng.choice(TYPES) for _ in range(rng.choice([1, 1, 2]))])          # extra args for a no-arg method
+    if k < 0.3:
+        i = rng.randrange(len(ts))
+        us = list(ts)
+        us[i] = other_type(rng, ts[i])
+        return gen_args(rng, us)                                                              # one wrong type
+    if k < 0.45:
+        return gen_args(rng, ts[:-1])                                                         # one missing
+    if k < 0.6:
+        return gen_args(rng, list(ts) + [rng.choice(TYPES)])                                  # one extra
+    if k < 0.7:
+        return ""                                                                              # none
+    if k < 0.85 and len(ts) == 1 and ts[0] in "RN":
+        return "u%d,s%s" % (rng.choice(U32S), tok_str(rng.choice(STRS)))                      # (us) sent as u, s
+    if k < 0.85 and [SIG[t] for t in ts] == ["u", "s"]:
+        return "R%d.%s" % (rng.choice(U32S), tok_str(rng.choice(STRS)))                       # u, s sent as (us)
+    if len(ts) >= 2:
+        us = list(ts)
+        rng.shuffle(us)
+        if [SIG[t] for t in us] != [SIG[t] for t in ts]:
+            return gen_args(rng, us)                                                          # permuted
+    return gen_args(rng, [other_type(rng, t) for t in ts])
+
+
+LAYOUTS = ["L/zv/a=D,/zv/a/b=D,/zv/c=O", "L/zv/a=D", "L/=D,/zv/c=O", "L/zv/a=D,/zv/c=O,/zv/c/d=D", "L/a/b/c=D,/a=O,/zv/a=D"]
+
+
+def layout_paths(layout):
+    """(paths with D, paths with only O, intermediate / root paths without D, unknown paths)"""
+    regs = [e.split("=") for e in layout[1:].split(",") if e]
+    dpaths = [p for p, k in regs if k == "D"]
+    opaths = [p for p, k in regs if k == "O" and p not in dpaths]
+    inter = set(["/"])
+    for p, _ in regs:
+        segs = [x for x in p.split("/") if x]
+        for i in range(1, len(segs)):
+            inter.add("/" + "/".join(segs[:i]))
+    inter = sorted(x for x in inter if x not in dpaths)
+    unknown = ["/nope", dpaths[0].rstrip("/") + "/x", "/zv/ab"]
+    unknown = [u for u in unknown if u not in dpaths and u not in opaths and u not in inter]
+    return dpaths, opaths, inter, unknown
+
+
+def call_op(path, iface, member, args, noreply=False):
+    return "c:%s:%s:%s:%s:%s" % (path or "-", iface or "-", member or "-", "n" if noreply else "-", args)
+
+
+def iname(d):
+    return "org.zv." + d["name"]
+
+
+def sname(x):
+    return "s" + tok_str(x)
+
+
+def gen26(rng, d, tier):
+    """dispatch: right / wrong / missing path, interface, member, argument types, the no-reply flag"""
+    cases = []
+    I = iname(d)
+    ncases = 6 if tier == "quick" else 16
+    for ci in range(ncases):
+        layout = LAYOUTS[ci % len(LAYOUTS)] if ci < len(LAYOUTS) else rng.choice(LAYOUTS)
+        dp, op_, inter, unk = layout_paths(layout)
+        ops = []
+        members = [m["name"] for m in d["methods"]]
+        wrong_members = [p["name"] for p in d["props"]] + [s["name"] for s in d["signals"]] + ["MNope", "Get", "Ping", "MHello"] + \
+                        [m.lower() for m in members[:1]]
+        for _ in range(14 if tier == "quick" else 24):
+            k = rng.random()
+            m = rng.choice(d["methods"]) if d["methods"] else None
+            path = rng.choice(dp)
+            nr = rng.random() < 0.2
+            if m and k < 0.32:
+                ops.append(call_op(path, I, m["name"], gen_args(rng, m["ins"]), nr))                      # everything right
+            elif m and k < 0.52:
+                ops.append(call_op(path, I, m["name"], bad_args(rng, m["ins"]), nr))                      # wrong arguments
+            elif k < 0.62:
+                wp = rng.choice(inter + unk + op_ + unk)
+                ops.append(call_op(wp, I, m["name"] if m else "MNope", gen_args(rng, m["ins"]) if m else "", nr))   # wrong path
+            elif k < 0.72:
+                wi = rng.choice(["org.zv.Other", "org.zv.Nope", "org.freedesktop.DBus.Peer", PR, None, None, I + "x"])
+                ops.append(call_op(path, wi, m["name"] if m else "MNope", gen_args(rng, m["ins"]) if m else "", nr))  # wrong / missing interface
+            elif k < 0.82:
+                ops.append(call_op(path, I, rng.choice(wrong_members), gen_args(rng, m["ins"]) if m and rng.random() < 0.5 else "", nr))  # wrong member
+            elif k < 0.86:
+                which = rng.choice(["p", "m", "pm"])
+                ops.append(call_op(None if "p" in which else path, I, None if "m" in which else (m["name"] if m else "MNope"),
+                                   gen_args(rng, m["ins"]) if m else "", nr))                                # missing PATH / MEMBER
+            elif k < 0.92:
+                ops.append(call_op(rng.choice(dp + inter + op_), "org.freedesktop.DBus.Peer", rng.choice(["Ping", "Ping", "Pong"]),
+                                   rng.choice(["", "", "u1"]), nr))
+            elif k < 0.96 and op_:
+                ops.append(call_op(rng.choice(op_ + dp), "org.zv.Other", "MHello", rng.choice(["", "", "s41"]), nr))
+            else:
+                p = rng.choice(d["props"]) if d["props"] else None
+                ops.append(call_op(path, PR, rng.choice(["Get", "GetAll", "Set", "Nope"]),
+                                   ",".join([sname(I)] + ([sname(p["name"])] if p and rng.random() < 0.7 else [])), nr))
+        cases.append("26 %s %s %s" % (desc_token(d), layout, " ".join(ops)))
+    return cases
+
+
+def gen28(rng, d, tier):
+    """Properties: Get / GetAll / Set histories with right and wrong names, types, interfaces, paths"""
+    cases = []
+    I = iname(d)
+    ncases = 5 if tier == "quick" else 14
+    for ci in range(ncases):
+        layout = rng.choice(["L/zv/a=D", "L/zv/a=D,/zv/a/b=D,/zv/c=O"])
+        dp, op_, inter, unk = layout_paths(layout)
+        ops = []
+        for _ in range(18 if tier == "quick" else 40):
+            k = rng.random()
+            p = rng.choice(d["props"]) if d["props"] else None
+            path = rng.choice(dp)
+            nr = rng.random() < 0.1
+            pn = p["name"] if p else "PNope"
+            if p and k < 0.4:
+                ops.append(call_op(path, PR, "Set", "%s,%s,v%s" % (sname(I), sname(pn), gen_val(rng, p["ty"])), nr))       # right type (whatever the access)
+            elif p and k < 0.5:
+                ops.append(call_op(path, PR, "Set", "%s,%s,v%s" % (sname(I), sname(pn), gen_val(rng, other_type(rng, p["ty"]))), nr))
+            elif p and k < 0.54:
+                ops.append(call_op(path, PR, "Set", "%s,%s,vv%s" % (sname(I), sname(pn), gen_val(rng, p["ty"])), nr))      # value wrapped in one more variant
+            elif k < 0.7:
+                ops.append(call_op(path, PR, "Get", "%s,%s" % (sname(I), sname(pn)), nr))
+            elif k < 0.8:
+                ops.append(call_op(path, PR, "GetAll", sname(I), nr))
+            elif k < 0.85:
+                wn = rng.choice(["PNope", pn.lower(), (d["methods"][0]["name"] if d["methods"] else "MNope"), ""])
+                if rng.random() < 0.5:
+                    ops.append(call_op(path, PR, "Get", "%s,%s" % (sname(I), sname(wn)), nr))
+                else:
+                    ops.append(call_op(path, PR, "Set", "%s,%s,v%s" % (sname(I), sname(wn), gen_val(rng, "u")), nr))
+            elif k < 0.9:
+                wi = rng.choice(["org.zv.Nope", "org.zv.Other", "org.freedesktop.DBus.Peer", PR, "bad name", "x"])
+                which = rng.choice(["Get", "GetAll", "Set"])
+                a = {"Get": "%s,%s" % (sname(wi), sname(pn)), "GetAll": sname(wi), "Set": "%s,%s,vu1" % (sname(wi), sname(pn))}[which]
+                ops.append(call_op(path, PR, which, a, nr))
+            elif k < 0.95:
+                wp = rng.choice(inter + unk + op_)
+                ops.append(call_op(wp, PR, rng.choice(["Get", "GetAll"]), "%s,%s" % (sname(I), sname(pn)) if rng.random() < 0.5 else sname(I), nr))
+            else:
+                a = rng.choice(["", sname(I), "%s,%s" % (sname(I), sname(pn)), "%s,%s,u1" % (sname(I), sname(pn)), "u1,u2"])
+                ops.append(call_op(path, PR, rng.choice(["Get", "GetAll", "Set"]), a, nr))                                   # arbitrary argument lists
+        cases.append("28 %s %s %s" % (desc_token(d), layout, " ".join(ops)))
+    return cases
+
+
+TREES = ["L/zv/a=D", "L/=D", "L/zv/a=D,/zv/a/b=D,/zv/c=O", "L/a/b/c/d=D,/a/b=O,/a/x=D", "L/=O,/q=D,/q/r=O,/q/s=D", "L"]
+
+
+def gen27(rng, d, tier):
+    """introspection on random trees, plus for every member what actually travels (calls, replies, signals, Get/Set)"""
+    cases = []
+    I = iname(d)
+    for ti, layout in enumerate(TREES if tier != "quick" else TREES[:4] + [rng.choice(TREES[4:])]):
+        dp, op_, inter, unk = layout_paths(layout) if layout != "L" else ([], [], ["/"], ["/nope"])
+        ops = ["i:%s" % p for p in sorted(set(dp + op_ + inter + unk[:1]))]
+        if dp:
+            path = dp[0]
+            for m in d["methods"]:
+                ops.append(call_op(path, I, m["name"], gen_args(rng, m["ins"])))
+                ops.append(call_op(path, I, m["name"], bad_args(rng, m["ins"])))
+            for s in d["signals"]:
+                ops.append("sg:a:%s:%s:%s" % (path, s["name"], gen_args(rng, s["args"])))
+            for p in d["props"]:
+                ops.append(call_op(path, PR, "Get", "%s,%s" % (sname(I), sname(p["name"]))))
+                ops.append(call_op(path, PR, "Set", "%s,%s,v%s" % (sname(I), sname(p["name"]), gen_val(rng, p["ty"]))))
+                ops.append(call_op(path, PR, "Set", "%s,%s,v%s" % (sname(I), sname(p["name"]), gen_val(rng, other_type(rng, p["ty"])))))
+            ops.append(call_op(path, PR, "GetAll", sname(I)))
+        cases.append("27 %s %s %s" % (desc_token(d), layout, " ".join(ops)))
+    return cases
+
+
+def gen33(rng, d, tier):
+    """generated proxies (async and blocking) against the generated interface"""
+    cases = []
+    ncases = 3 if tier == "quick" else 8
+    for ci in range(ncases):
+        layout = rng.choice(["L/zv/a=D", "L/zv/a=D,/zv/a/b=D,/zv/c=O"])
+        dp, _, _, _ = layout_paths(layout)
+        ops = []
+        for _ in range(16 if tier == "quick" else 36):
+            k = rng.random()
+            ab = rng.choice("ab")
+            path = rng.choice(dp)
+            if d["methods"] and k < 0.4:
+                m = rng.choice(d["methods"])
+                ops.append("pm:%s:%s:%s:%s" % (ab, path, m["name"], gen_args(rng, m["ins"])))
+            elif d["props"] and k < 0.75:
+                p = rng.choice(d["props"])
+                if "w" in p["acc"] and (rng.random() < 0.55 or "r" not in p["acc"]):
+                    ops.append("ps:%s:%s:%s:%s" % (ab, path, p["name"], gen_val(rng, p["ty"])))
+                else:
+                    ops.append("pg:%s:%s:%s" % (ab, path, p["name"]))
+            elif d["signals"] and k < 0.95:
+                s = rng.choice(d["signals"])
+                ops.append("sg:%s:%s:%s:%s" % (ab, path, s["name"], gen_args(rng, s["args"])))
+            elif d["props"]:
+                ops.append(call_op(path, PR, "GetAll", sname(iname(d))))
+        if ops:
+            cases.append("33 %s %s %s" % (desc_token(d), layout, " ".join(ops)))
+    return cases
+
+
+GEN = {"C26": gen26, "C27": gen27, "C28": gen28, "C33": gen33}
+MODE = {"C26": "26", "C27": "27", "C28": "28", "C33": "33"}
+
+
+# ---------------------------------------------------------------- comparing observations
+def wild(pat, text):
+    """'*' in pat matches any run of characters without a separator"""
+    if pat == text:
+        return True
+    return re.fullmatch(re.escape(pat).replace(r"\*", r"[^|&;]*"), text) is not None
+
+
+def agree_op(impl, model):
+    return wild(model, impl)
+
+
+def parse_canon_node(s, i=0):
+    """canonical node text -> (list of iface strings, list of (name, child)), next index"""
+    assert s[i] == "["
+    j = s.index("]", i)
+    ifs = s[i + 1:j].split("~") if j > i + 1 else []
+    assert s[j + 1] == "{"
+    k = j + 2
+    kids = []
+    while s[k] != "}":
+        b = s.index("[", k)
+        name = s[k:b]
+        child, k = parse_canon_node(s, b)
+        kids.append((name, child))
+        if s[k] == "~":
+            k += 1
+    return (ifs, kids), k + 1
+
+
+def norm_iface(t):
+    name, m, sg, p = t.split(":")
+    return "%s:M%s:S%s:P%s" % (name, "+".join(sorted(m[1:].split("+"))), "+".join(sorted(sg[1:].split("+"))), "+".join(sorted(p[1:].split("+"))))
+
+
+def norm_node(n):
+    ifs, kids = n
+    return "[" + "~".join(sorted(norm_iface(t) for t in ifs)) + "]{" + "~".join(k + norm_node(c) for k, c in sorted(kids)) + "}"
+
+
+def norm_canon(z):
+    """member order inside an interface is not demanded by the property: sort it away"""
+    try:
+        n, _ = parse_canon_node(z)
+        return norm_node(n)
+    except (ValueError, AssertionError, IndexError):
+        return z
+
+
+def reply_meets(spec, impl):
+    if spec.startswith("?"):
+        return impl == "N" or reply_meets(spec[1:], impl)
+    if spec == "E*":
+        return impl.startswith("E") and "&" not in impl
+    return wild(spec, impl)
+
+
+def meets_op(impl, spec):
+    if spec == "-":
+        return True
+    sf, imf = spec.split("|"), impl.split("|")
+    if len(sf) != len(imf):
+        return False
+    if sf[0].startswith("I") and len(sf) == 5:
+        if not imf[0].startswith("I"):
+            return False
+        return (norm_canon(imf[0][1:]) == norm_canon(sf[0][1:]) and imf[2] != "BADXML" and norm_canon(imf[2]) == norm_canon(sf[2])
+                and imf[3] == sf[3] and imf[4] == sf[4])
+    if not reply_meets(sf[0], imf[0]):
+        return False
+    return all(wild(a, b) for a, b in zip(sf[1:], imf[1:]))
+
+
+# ---------------------------------------------------------------- the strict XML reader (Python's expat)
+def py_canon(xml_text):
+    from xml.dom import minidom
+    import xml.etree.ElementTree as ET
+    try:
+        doc = minidom.parseString(xml_text.encode("utf8"))
+        ET.fromstring(xml_text.encode("utf8"))
+    except Exception:
+        return "BADXML"
+
+    def els(n, tag):
+        return [c for c in n.childNodes if c.nodeType == c.ELEMENT_NODE and c.tagName == tag]
+
+    def arg(a):
+        return "%s=%s" % (a.getAttribute("name") if a.hasAttribute("name") else "-", a.getAttribute("type"))
+
+    def iface(i):
+        ms = []
+        for m in els(i, "method"):
+            ins = [arg(a) for a in els(m, "arg") if a.getAttribute("direction") == "in"]
+            outs = [arg(a) for a in els(m, "arg") if a.getAttribute("direction") != "in"]
+            ms.append("%s(%s>%s)" % (m.getAttribute("name"), ",".join(ins), ",".join(outs)))
+        ss = ["%s(%s)" % (m.getAttribute("name"), ",".join(arg(a) for a in els(m, "arg"))) for m in els(i, "signal")]
+        ps = []
+        for p in els(i, "property"):
+            em = "true"
+            for a in els(p, "annotation"):
+                if a.getAttribute("name") == "org.freedesktop.DBus.Property.EmitsChangedSignal":
+                    em = a.getAttribute("value")
+                    break
+            acc = {"read": "r", "write": "w", "readwrite": "rw"}.get(p.getAttribute("access"), "?")
+            ps.append("%s=%s/%s/%s" % (p.getAttribute("name"), p.getAttribute("type"), acc, em))
+        return "%s:M%s:S%s:P%s" % (i.getAttribute("name"), "+".join(ms), "+".join(ss), "+".join(ps))
+
+    def node(n):
+        ifs = sorted((iface(i) for i in els(n, "interface")), key=lambda z: z.encode("utf8"))
+        kids = sorted(((c.getAttribute("name") if c.hasAttribute("name") else "?", node(c)) for c in els(n, "node")),
+                      key=lambda z: (z[0].encode("utf8"), z[1].encode("utf8")))
+        return "[" + "~".join(ifs) + "]{" + "~".join(k + v for k, v in kids) + "}"
+    return node(doc.documentElement)
+
+
+def post_impl(line):
+    """replace the X<hex of the XML text> field of every Introspect observation by the strict reader's verdict"""
+    if "|X" not in line:
+        return line
+    out = []
+    for ob in line.split(";"):
+        f = ob.split("|")
+        if len(f) == 5 and f[2].startswith("X"):
+            try:
+                f[2] = py_canon(bytes.fromhex(f[2][1:]).decode("utf8"))
+            except ValueError:
+                f[2] = "BADXML"
+        out.append("|".join(f))
+    return ";".join(out)
+
+
+# ---------------------------------------------------------------- the run (custom_run of props/C26|C27|C28|C33.py)
+import json
+import time
+
+
+def corpus_lines(pid):
+    d = os.path.join(core.ROOT, "corpus", pid)
+    out = []
+    if os.path.isdir(d):
+        for f in sorted(os.listdir(d)):
+            if f.endswith(".txt"):
+                for ln in open(os.path.join(d, f)):
+                    ln = ln.rstrip("\n")
+                    if ln and not ln.startswith("#"):
+                        out.append(ln)
+    return out
+
+
+def dedupe(seq):
+    seen, out = set(), []
+    for x in seq:
+        if x not in seen:
+            seen.add(x)
+            out.append(x)
+    return out
+
+
+def split3(line):
+    parts = line.split("\t")
+    while len(parts) < 3:
+        parts.append("-")
+    return parts[0], parts[1], parts[2]
+
+
+def evaluate(cases, model_out, impl_out, known_classes):
+    """per op: correspondence (impl vs model), oracle (impl vs spec) outside the known classes"""
+    dis, vio, known, nops = [], [], {}, 0
+    for c, mo, io in zip(cases, model_out, impl_out):
+        m, sp, cl = split3(mo)
+        ops = c.split(" ")[3:]
+        mm, ss, cc, ii = m.split(";"), sp.split(";"), cl.split(";"), io.split(";")
+        if m == "BADCASE" or io in ("BADCASE", "PANIC", "NOCONN", "ABORT", "HANG") or not (len(ops) == len(mm) == len(ss) == len(cc) == len(ii)):
+            if not (m == "BADCASE" and io == "BADCASE") and ops:
+                dis.append({"case": c, "op": "*", "impl": io[:2000], "model": m[:2000], "spec": "-", "class": "-"})
+            continue
+        for k, (o, a, b, s_, cls) in enumerate(zip(ops, ii, mm, ss, cc)):
+            nops += 1
+            if not agree_op(a, b):
+                dis.append({"case": c, "op_index": k, "op": o, "impl": a[:4000], "model": b[:4000], "spec": s_[:2000], "class": cls})
+            if not meets_op(a, s_):
+                if cls != "-" and cls in known_classes:
+                    known.setdefault(cls, []).append(c)
+                else:
+                    vio.append({"case": c, "op_index": k, "op": o, "impl": a[:4000], "model": b[:4000], "spec": s_[:4000], "class": cls})
+    return dis, vio, known, nops
+
+
+def op_kind(o):
+    f = o.split(":")
+    if f[0] == "c":
+        std = f[2].startswith("org.freedesktop.") if f[2] != "-" else False
+        return "call:" + ("props." + f[3] if f[2] == PR else "std" if std else "user") + (":noreply" if f[4] == "n" else "")
+    return f[0]
+
+
+def outcome_kind(a):
+    r = a.split("|")[0]
+    if r.startswith("R") or r.startswith("O"):
+        return "ok"
+    if r.startswith("E"):
+        return "err:" + r[1:].split("=")[0]
+    if r.startswith("I"):
+        return "xml" + (":BAD" if "BADXML" in a else "")
+    return r[:8]
+
+
+def shrink_case(binary, zmodel, case, known_classes):
+    """drop ops while the case still violates (the layout and description stay)"""
+    w = case.split(" ")
+    head, ops = w[:3], w[3:]
+
+    def bad(ops_):
+        line = " ".join(head + ops_)
+        mo = core.run_lines(zmodel, [line])
+        io = [post_impl(x) for x in core.run_lines(binary, [line])]
+        _, v, _, _ = evaluate([line], mo, io, known_classes)
+        return bool(v)
+    i = 0
+    while i < len(ops) and len(ops) > 1:
+        trial = ops[:i] + ops[i + 1:]
+        if bad(trial):
+            ops = trial
+        else:
+            i += 1
+    return " ".join(head + ops)
+
+
+def run_property(prop, pid, tier, seed, replay=None):
+    t0 = time.time()
+    log = core.log
+    coq = core.coq_check(pid, thorough=(tier == "thorough"))
+    zmodel, merr = core.model_build(pid, prop.RUN_MODULE)
+    kf = core.known_findings(pid)
+    known_classes = {e["class"] for e in kf if e.get("status") == "known"}
+    problems, tool_errors = [], []
+    if not coq["ok"]:
+        problems.append({"kind": "proof", "theorem": coq.get("failed_at"), "log": coq["log"][-1500:], "audit": coq["audit"]})
+    if zmodel is None:
+        problems.append({"kind": "proof", "theorem": "model does not build/extract", "log": merr[-1500:]})
+
+    # ---- batches of descriptions: [(random descriptions, cases)]
+    rng = random.Random("cases-%s-%s-%s" % (pid, tier, seed))
+    batches = []
+    if replay:
+        rp = json.load(open(replay))
+        rand = [parse_desc(t) for t in rp.get("rand_descs", [])]
+        cases = [x["case"] if isinstance(x, dict) else x for x in rp.get("cases", [])] or ([rp["case"]] if "case" in rp else [])
+        batches.append((rand, cases, 0))
+    else:
+        nb = 1 if tier == "quick" else 4
+        for b in range(nb):
+            rand = batch_descs(tier, seed, b)
+            cases = []
+            if b == 0:
+                cases += corpus_lines(pid) + [e["case"] for e in kf if "case" in e]
+                for d in corpus_descs():
+                    cases += GEN[pid](rng, d, tier)
+            fixed = len(cases)
+            for d in rand:
+                cases += GEN[pid](rng, d, tier)
+            batches.append((rand, dedupe(cases), fixed))
+
+    disagreements, violations, known_hits = [], [], {}
+    dist, nontrivial, samples = {}, set(), []
+    total_cases = total_ops = gen_count = programs = 0
+    build_failed = False
+    last = None
+    for rand, cases, fixed in batches:
+        binary, berr, descs = build_batch(rand)
+        programs += len(descs)
+        if binary is None:
+            build_failed = True
+            problems.append({"kind": "correspondence", "theorem": "generated interfaces do not build against /repo (harness hiface)", "log": berr[-2500:]})
+            continue
+        if zmodel is None or not cases:
+            continue
+        last = (binary, rand)
+        gen_count += len(cases) - fixed
+        model_out = core.run_lines(zmodel, cases, shards=min(core.NCPU, 8))
+        impl_out = [post_impl(x) for x in core.run_lines(binary, cases, shards=min(core.NCPU, 8), timeout=1500)]
+        if any(x.startswith("BADCASE") for x in model_out) or any(x.startswith("BADCASE") for x in impl_out):
+            bad = [c for c, x, y in zip(cases, model_out, impl_out) if x.startswith("BADCASE") or y.startswith("BADCASE")][:2]
+            tool_errors.append("case syntax rejected: %r" % [b[:300] for b in bad])
+        d, v, k, nops = evaluate(cases, model_out, impl_out, known_classes)
+        if d or v:
+            # schedule-dependent hiccups (a reply overtaken, a slow start): re-run the suspicious cases once
+            again = dedupe([x["case"] for x in d + v])
+            idx = {c: i for i, c in enumerate(cases)}
+            io2 = [post_impl(x) for x in core.run_lines(binary, again, shards=1)]
+            for c, o in zip(again, io2):
+                impl_out[idx[c]] = o
+            d, v, k, nops = evaluate(cases, model_out, impl_out, known_classes)
+        for x in d + v:
+            x["rand_descs"] = [desc_token(t) for t in rand]
+        disagreements += d
+        violations += v
+        for kk, vv in k.items():
+            known_hits.setdefault(kk, []).extend(vv)
+        total_cases += len(cases)
+        total_ops += nops
+        for c, io in zip(cases, impl_out):
+            ops, ii = c.split(" ")[3:], io.split(";")
+            if len(ops) != len(ii):
+                continue
+            kinds = set()
+            for o, a in zip(ops, ii):
+                key = op_kind(o) + " -> " + outcome_kind(a)
+                dist[key] = dist.get(key, 0) + 1
+                kinds.add(outcome_kind(a).split(":")[0])
+            if len(ops) >= 2 and "ok" in kinds | ({"ok"} if "xml" in kinds else set()) and len(kinds) >= 2:
+                nontrivial.add(c)
+        if not samples:
+            step = max(1, len(cases) // 4)
+            samples = [{"case": c[:1500], "impl": i[:1500], "model_spec_class": m[:3000]} for c, i, m in
+                       list(zip(cases, impl_out, model_out))[::step][:4]]
+        # extraction vs in-Coq evaluation on a sample
+        kx = 6 if tier == "quick" else 20
+        pick = sorted(rng.sample(range(len(cases)), min(kx, len(cases))))
+        pick = [i for i in pick if len(cases[i]) < 6000][:kx]
+        okx, outx = core.vm_crosscheck(pid, prop.RUN_MODULE, [cases[i] for i in pick], [model_out[i] for i in pick])
+        if not okx:
+            tool_errors.append("extracted model and vm_compute disagree on the sample: " + outx[-400:])
+
+    known_lines = []
+    for e in kf:
+        if e.get("status") == "known" and known_hits.get(e["class"]):
+            hits = known_hits[e["class"]]
+            known_lines.append("KNOWN-FINDING: property=%s %s [class %s, %d op(s) this run]" % (pid, e["what_fails"], e["class"], len(hits)))
+
+    p_ok = coq["ok"] and zmodel is not None
+    c_ok = not disagreements and not build_failed
+    o_ok = not violations
+    status, replay_path, searched = 0, None, 0
+    if violations:
+        status = 1
+        v0 = violations[0]
+        if last and not replay:
+            try:
+                v0 = dict(v0, case=shrink_case(last[0], zmodel, v0["case"], known_classes)) if v0.get("rand_descs") == [desc_token(t) for t in last[1]] else v0
+            except Exception as ex:
+                log("shrink failed:", ex)
+        replay_path = core.write_replay(pid, seed, {"property": pid, "tier": tier, "seed": seed, "kind": "spec-violation",
+                                                    "case": v0["case"], "op": v0.get("op"), "impl": v0["impl"], "model": v0["model"],
+                                                    "spec": v0["spec"], "rand_descs": v0.get("rand_descs", []),
+                                                    "cases": [x["case"] for x in violations[:10]]})
+    elif not p_ok or not c_ok:
+        # the property is no longer shown to hold: look harder for an input on which the implementation breaks it
+        found = None
+        if last and zmodel and not replay:
+            t1 = time.time()
+            srng = random.Random("search-%s-%s" % (pid, seed))
+            binary, rand = last
+            extra = []
+            targets = [parse_desc(x["case"].split(" ")[1]) for x in disagreements[:6] if x["case"].split(" ")[1:2]]
+            for d in targets + corpus_descs() + rand:
+                extra += GEN[pid](srng, d, "thorough")
+            extra = dedupe(extra)[:1500]
+            searched = len(extra)
+            mo2 = core.run_lines(zmodel, extra, shards=min(core.NCPU, 8))
+            io2 = [post_impl(x) for x in core.run_lines(binary, extra, shards=min(core.NCPU, 8), timeout=1500)]
+            _, v2, _, _ = evaluate(extra, mo2, io2, known_classes)
+            if v2:
+                found = dict(v2[0], rand_descs=[desc_token(t) for t in rand])
+            log("search: %d extra cases in %.1fs, found=%s" % (searched, time.time() - t1, bool(found)))
+        status = 1
+        if found:
+            replay_path = core.write_replay(pid, seed, {"property": pid, "tier": tier, "seed": seed, "kind": "spec-violation",
+                                                        "case": found["case"], "op": found.get("op"), "impl": found["impl"],
+                                                        "model": found["model"], "spec": found["spec"], "rand_descs": found["rand_descs"]})
+            violations = [found]
+        else:
+            replay_path = core.write_replay(pid, seed, {
+                "property": pid, "tier": tier, "seed": seed, "kind": "proof" if not p_ok else "correspondence",
+                "theorem": [p.get("theorem") for p in problems], "problems": problems[:5],
+                "cases": disagreements[:10], "rand_descs": disagreements[0].get("rand_descs", []) if disagreements else [],
+                "note": "no failing input found; the theorem/correspondence named here no longer checks"})
+
+    theorems = coq["theorems"]
+    ev = {
+        "property_id": pid, "tier": tier, "seed": seed, "level": getattr(prop, "LEVEL", "proof"),
+        "wall_s": round(time.time() - t0, 2),
+        "violations": len(violations) + (1 if status and not violations else 0),
+        "coverage": {
+            "obligations": len(theorems) + 1,
+            "discharged": (len(theorems) + 1) if coq["ok"] else 0,
+            "theorems": theorems,
+            "partial_or_refuted": [t for t in theorems if t.endswith("_partial") or t.endswith("_refuted")],
+            "axioms_reported": coq["axioms"],
+            "closed_under_global_context": coq.get("closed", 0),
+            "audit_hits": coq["audit"],
+            "checker_cmd": coq["checker_cmd"],
+            "trusted_base": ["Coq 8.16.1 kernel (vm_compute used in finite-domain lemmas and witnesses; no native_compute)",
+                             "extraction (ExtrOcamlBasic only) + model/driver.ml, cross-checked by in-Coq vm_compute on a sample",
+                             "hand-written model of what the macros generate, tied to /repo by the differential correspondence below"]
+                            + list(getattr(prop, "TRUSTED", [])),
+            "evaluations": total_ops,
+            "cases": total_cases,
+            "generated": gen_count,
+            "programs": programs,
+            "distinct_nontrivial": len(nontrivial),
+            "rule": getattr(prop, "RULE", ""),
+            "samples": samples if samples else [{"note": "no case could be run"}],
+            "distribution": dist,
+            "disagreements_checked": len(disagreements),
+            "known_class_hits": {k: len(v) for k, v in known_hits.items()},
+            "search_extra_cases": searched,
+            "tool_errors": tool_errors,
+        },
+        "assumptions": list(getattr(prop, "ASSUMPTIONS", [])),
+    }
+    core.write_evidence(pid, ev)
+    for ln in known_lines:
+        print(ln)
+    log("[%s] tier=%s seed=%s cases=%d ops=%d interfaces=%d P_ok=%s C_ok=%s O_ok=%s theorems=%d axioms=%s wall=%.1fs" %
+        (pid, tier, seed, total_cases, total_ops, programs, p_ok, c_ok, o_ok, len(theorems), coq["axioms"], time.time() - t0))
+    for te in tool_errors:
+        log("TOOL-ERROR:", te)
+    if status:
+        tail = "" if violations else " no-failing-input-found"
+        for p_ in problems[:3]:
+            log("PROBLEM:", p_.get("kind"), p_.get("theorem"), "\n", (p_.get("log") or "")[-1500:])
+        for d in disagreements[:5]:
+            log("DISAGREE:", {k: (v if k != "rand_descs" else "...") for k, v in d.items()})
+        for v in violations[:5]:
+            log("VIOLATES:", {k: (v_ if k != "rand_descs" else "...") for k, v_ in v.items()})
+        print("VIOLATION property=%s replay=%s%s" % (pid, replay_path, tail))
+        return 1
+    if tool_errors:
+        return 2
+    return 0
 
 
 if __name__ == "__main__":
     if sys.argv[1] == "emit":
         rng = random.Random(int(sys.argv[2]))
-        ds = [OTHER] + [rand_desc(rng, "G%d" % i) for i in range(int(sys.argv[3]))]
-        write_tree(sys.argv[4], ds)
-        for d in ds:
+        ds = [rand_desc(rng, "G%d" % i) for i in range(int(sys.argv[3]))]
+        b, log, descs = build_batch(ds)
+        print(b, log, file=sys.stderr)
+        for d in descs:
             print(desc_token(d))
